@@ -263,8 +263,8 @@ func init() {
 			Rule: "histories of OnPut/Has/Put/Close (and calls after Close) on a deferred writer whose target is a simulated plain stream (call-logging sink), a stream that also offers io.WriterAt (optionally asked for CARv2), or a path in the simulated file system; after every step: zero stream writes and no file before the first Put attempt, afterwards target bytes equal a directly constructed storage.NewWritable fed the same puts; callback log per Put equals the registration-order model; ErrClosed after Close. " +
 				"Non-trivial = at least one Put attempted; distinct = distinct (options, op string)",
 			Gen: GenC20, Exec: RunC20, Minimise: true,
-			Assume:       []string{"a Put on an already closed writer is not required to fire callbacks", "storage.NewWritable is the 'directly constructed writer' of the statement"},
-			Real:         realAll, Stub: []string{"output stream (sim.Sink)", "file system (sim.FS / sim.File substituted for os.OpenFile / os.File in storage/deferred)"}, Schedule: "single task",
+			Assume: []string{"a Put on an already closed writer is not required to fire callbacks", "storage.NewWritable is the 'directly constructed writer' of the statement"},
+			Real:   realAll, Stub: []string{"output stream (sim.Sink)", "file system (sim.FS / sim.File substituted for os.OpenFile / os.File in storage/deferred)"}, Schedule: "single task",
 			ExpectProbes: []string{"c20:target=stream", "c20:target=stream-wa", "c20:target=path"},
 		}
 	})
